@@ -72,10 +72,14 @@ func isOpaque(t types.Type) bool {
 const maxArrayLeaves = 256
 
 type Mem struct {
-	cache map[types.Type][]Leaf
+	cache   map[types.Type][]Leaf
+	PtrKeys map[string]bool // heap keys whose cells hold addresses
+	PtrElem map[string]types.Type // pointee type of a pointer heap key, element type of a slice "#ptr" key
 }
 
-func NewMem() *Mem { return &Mem{cache: map[types.Type][]Leaf{}} }
+func NewMem() *Mem {
+	return &Mem{cache: map[types.Type][]Leaf{}, PtrKeys: map[string]bool{}, PtrElem: map[string]types.Type{}}
+}
 
 // Leaves lists the scalar cells of a value of type t laid out in memory, with the
 // heap each one lives in. ctxKey is the key prefix given by the enclosing struct field
@@ -95,6 +99,9 @@ func (m *Mem) leaves(t types.Type, fieldKey string) []Leaf {
 		if k == "" {
 			k = "cell:" + typeKey(t)
 		}
+		if isPtr {
+			m.PtrKeys[k+suffix] = true
+		}
 		return Leaf{Key: k + suffix, Bool: isBool, IsPtr: isPtr}
 	}
 	if isOpaque(t) {
@@ -110,9 +117,15 @@ func (m *Mem) leaves(t types.Type, fieldKey string) []Leaf {
 		}
 		return []Leaf{cell("", false, u.Kind() == types.UnsafePointer)}
 	case *types.Pointer, *types.Map, *types.Chan, *types.Signature:
-		return []Leaf{cell("", false, true)}
+		l := cell("", false, true)
+		if p, ok := u.(*types.Pointer); ok {
+			m.PtrElem[l.Key] = p.Elem()
+		}
+		return []Leaf{l}
 	case *types.Slice:
-		return []Leaf{cell("#ptr", false, true), cell("#len", false, false), cell("#cap", false, false)}
+		lp := cell("#ptr", false, true)
+		m.PtrElem[lp.Key] = u.Elem()
+		return []Leaf{lp, cell("#len", false, false), cell("#cap", false, false)}
 	case *types.Interface:
 		return []Leaf{cell("#typ", false, false), cell("#val", false, false)}
 	case *types.Struct:
